@@ -213,3 +213,6 @@ func (m *Map) Clear() {
 func OnceFunc(f func()) func()                         { return sync.OnceFunc(f) }
 func OnceValue[T any](f func() T) func() T             { return sync.OnceValue(f) }
 func NewCond(l Locker) *sync.Cond                      { return sync.NewCond(l) }
+func OnceValues[T1, T2 any](f func() (T1, T2)) func() (T1, T2) { return sync.OnceValues(f) }
+
+type Cond = sync.Cond
